@@ -280,6 +280,15 @@ impl<'tcx> Exporter<'tcx> {
                 ("exp".to_string(), J::Bool(exp)),
                 ("pub".to_string(), vis),
             ];
+            if matches!(kind, DefKind::Fn | DefKind::AssocFn) {
+                // names of the type parameters, in the order in which call sites list their type arguments (`substs`)
+                let gens: Vec<J> = ty::GenericArgs::identity_for_item(tcx, did)
+                    .iter()
+                    .filter_map(|a| a.as_type())
+                    .map(|t| s(self.ty_str(t)))
+                    .collect();
+                hdr.push(("generics".to_string(), J::Arr(gens)));
+            }
             if let J::Obj(ref mut v) = bj {
                 hdr.append(v);
             }
